@@ -5,9 +5,17 @@ package aggregation
 // Contracts for govc (see /verif/DESIGN.md, C07 / C14). Comment-only file.
 
 // accessors used by the renderers: read-only, rows are never nil
+// min/max over the cells of every row and every known column (absent cell = 0): both are bounds
 //@ func (*TableAggregator).ComputeMinMax
+//@   requires wf_table(s)
 //@   pure
-//@   trusted
+//@   ensures [bounds] forall rk: str :: forall ck: str :: in_dom(s.rows, rk) && in_dom(s.cols, ck) ==> min <= cell(s, rk, ck) && cell(s, rk, ck) <= max
+//@   loop 1 invariant wf_table(s) && (min == MaxInt64 || min <= max)
+//@   loop 1 invariant forall rk: str :: forall ck: str :: visited_in(1, rk) && in_dom(s.rows, rk) && in_dom(s.cols, ck) ==> min <= cell(s, rk, ck) && cell(s, rk, ck) <= max
+//@   loop 2 invariant wf_table(s) && (min == MaxInt64 || min <= max)
+//@   loop 2 invariant visited_in(1, lastkey_in(1)) && in_dom(s.rows, lastkey_in(1)) && map_get(s.rows, lastkey_in(1)) == r
+//@   loop 2 invariant forall rk: str :: forall ck: str :: visited_in(1, rk) && rk != lastkey_in(1) && in_dom(s.rows, rk) && in_dom(s.cols, ck) ==> min <= cell(s, rk, ck) && cell(s, rk, ck) <= max
+//@   loop 2 invariant forall ck: str :: visited_in(2, ck) && in_dom(s.cols, ck) ==> min <= cell(s, lastkey_in(1), ck) && cell(s, lastkey_in(1), ck) <= max
 //@ func (*TableAggregator).OrderedColumns
 //@   pure
 //@   trusted
@@ -71,6 +79,7 @@ package aggregation
 //@      && allocated(s.cols) && allocated(s.rows)
 // cell / row total / column total as shown by the accessors (absent = 0)
 //@ pred cell(s, r, c) := if in_dom(s.rows, r) && in_dom(map_get(s.rows, r).cols, c) then map_get(map_get(s.rows, r).cols, c) else 0
+//@ pred exists_row(s, p) := allocated(p) && p.cols != nil
 //@ pred rowsum(s, r) := if in_dom(s.rows, r) then map_get(s.rows, r).sum else 0
 //@ pred coltotal(s, c) := if in_dom(s.cols, c) then map_get(s.cols, c) else 0
 
